@@ -64,12 +64,13 @@ def gen(tier, rng):
             for ty in (0, 1):
                 yield case(op, ty, rand_names(rng), 1, 1, [v], pads(1, 1))
     # ---- random square 1..6
-    per_size = {1: 40, 2: 300, 3: 500, 4: 500, 5: 200, 6: 40} if quick else \
+    per_size = {1: 40, 2: 300, 3: 500, 4: 500, 5: 150, 6: 30} if quick else \
                {1: 100, 2: 2000, 3: 4000, 4: 4000, 5: 1500, 6: 300}
     for n, count in per_size.items():
         for _ in range(count):
             ty = rng.randrange(2)
-            kind = rng.choice([0, 0, 1, 2, 3])
+            # huge rationals only up to 4x4 (the 720-term sums over 100-digit fractions are slow)
+            kind = rng.choice([0, 0, 1, 2, 3]) if (n <= 4 or ty == 1) else rng.choice([0, 0, 1, 2])
             vals = [rand_entry(rng, ty, kind) for _ in range(n * n)]
             names = rand_names(rng)
             pad = pads(n, n)
